@@ -2,25 +2,27 @@
 # usage: tools/mkseed.sh Cxx -> scratch worktree /tmp/s/Cxx/repo for a seeding (mutation) sub-agent + TASK.md (property text only)
 set -e
 P=$1
-mkdir -p /tmp/s/$P/out
-git -C /repo worktree add -f --detach /tmp/s/$P/repo HEAD >/dev/null
-/venv/bin/python - "$P" <<'PY'
+R=${2:-}
+D=$P$R
+mkdir -p /tmp/s/$D/out
+git -C /repo worktree add -f --detach /tmp/s/$D/repo HEAD >/dev/null
+/venv/bin/python - "$P" "$D" <<'PY'
 import json,sys
-pid=sys.argv[1]
+pid=sys.argv[1]; d=sys.argv[2]
 p=[json.loads(l) for l in open('/verif/properties.jsonl') if json.loads(l)['id']==pid][0]
-open(f'/tmp/s/{pid}/TASK.md','w').write(f"""# Task: seed realistic property-breaking changes into a Python library
+open(f'/tmp/s/{d}/TASK.md','w').write(f"""# Task: seed realistic property-breaking changes into a Python library
 
 The library is utilmeta/utype (runtime type declaration / parsing), checked out as a scratch git worktree at
-/tmp/s/{pid}/repo (work ONLY there and in /tmp/s/{pid}/out; never touch /repo or /verif, do not read /verif).
+/tmp/s/{d}/repo (work ONLY there and in /tmp/s/{d}/out; never touch /repo or /verif, do not read /verif).
 Python: /venv/bin/python (utype's deps installed).  Test suite (must stay green, all 115 tests):
-  cd /tmp/s/{pid}/repo && /venv/bin/python -m pytest -q -p no:cacheprovider --timeout=900
+  cd /tmp/s/{d}/repo && /venv/bin/python -m pytest -q -p no:cacheprovider --timeout=900
 
 ## The property users rely on
 {p['title']}.
 {p['statement']}
 
 ## What to produce
-THREE independent changes (A, B, C) to the library source under /tmp/s/{pid}/repo/utype, each of which
+THREE independent changes (A, B, C) to the library source under /tmp/s/{d}/repo/utype, each of which
 * breaks the property above for some inputs,
 * still imports/compiles and keeps the whole existing test suite passing (run it!),
 * looks like a plausible maintenance edit (refactor slip, off-by-one, wrong operator, dropped branch, reordered
@@ -29,7 +31,7 @@ THREE independent changes (A, B, C) to the library source under /tmp/s/{pid}/rep
   a multi-step sequence of operations, a particular interleaving, or two cooperating sites that each look fine alone —
   so that ordinary use and the existing tests would not expose it at once,
 * is different in kind and location from the other two.
-For each change X in A, B, C write into /tmp/s/{pid}/out/X/:
+For each change X in A, B, C write into /tmp/s/{d}/out/X/:
   patch.diff   — `git diff` of that single change against the worktree's HEAD (apply with `git apply`), nothing else in it
   demo.py      — a small standalone program run as `PYTHONPATH=<repo> /venv/bin/python demo.py` that exits 0 on the
                  unchanged tree and exits 1 (printing what went wrong) with the change applied; it must show the PROPERTY
@@ -40,4 +42,4 @@ Verify each yourself: apply patch -> test suite green, demo exits 1; `git checko
 Leave the worktree clean (git checkout -- .) when done.  Final reply: 3 short paragraphs (one per change).
 """)
 PY
-echo /tmp/s/$P
+echo /tmp/s/$D
